@@ -72,6 +72,10 @@ def prove(claim, assumptions=(), label="", kind="auto", timeout_s=60, with_side=
         cs += list(S.ST.side)
     cs.append(z3.Not(claim))
     v, m = check(cs, label, kind, timeout_s)
+    if v != "unsat" and with_side and S.ST.congr:
+        # retry with the congruence axioms of the Ackermannised functions (unsat without them is already sound)
+        cs = cs[:-1] + list(S.ST.congr) + [cs[-1]]
+        v, m = check(cs, label + " [+congruence]", kind, timeout_s)
     if v == "unknown" and kind != "nra":
         v2, m2 = check(cs, label + " [nra]", "nra", timeout_s)
         if v2 != "unknown":
@@ -80,7 +84,7 @@ def prove(claim, assumptions=(), label="", kind="auto", timeout_s=60, with_side=
 
 
 def feasible(constraints, label="vacuity", kind="auto", timeout_s=60):
-    v, _ = check(list(constraints) + list(S.ST.side), label, kind, timeout_s, want_model=False)
+    v, _ = check(list(constraints) + list(S.ST.side) + list(S.ST.congr), label, kind, timeout_s, want_model=False)
     return v
 
 
